@@ -570,6 +570,89 @@ pub fn busy_stage(rep: &mut Report, cfg: &Cfg, prop: &'static str, stage: &str, 
     rep.stage(stage, &format!("{} conversations: first segment, then {} other connections (junk / complete HTTP / partial HTTP / SSH banner) through the same process, then the remaining segments with acknowledgement numbers advanced past the replies: every reply equals the idle-process reply", convs.len(), fill.len()), total, t0);
 }
 
+/// Sibling connections: one client endpoint (address, port) talks to TWO local addresses on the
+/// same destination port (the second handled address, an address in the same /64 / the same /24,
+/// the IPv4-mapped twin).  Connection A carries the first segment of one conversation; connection
+/// B then carries ANOTHER conversation in full.  Every reply on B must equal the one B gets from an
+/// idle process (connections are told apart by all four tuple members, all of their bits).
+pub fn sibling_conv_stage(rep: &mut Report, cfg: &Cfg, prop: &'static str, stage: &str, convs: &[(String, Vec<Vec<u8>>)]) {
+    let t0 = std::time::Instant::now();
+    let canon = |r: Option<&[u8]>| crate::props::c19::canon_for("", r, true);
+    let pairs: Vec<(Ip, Ip)> = vec![
+        (srv6(), srv6b()),
+        (Ip::parse("2001:db8:0:2::a"), Ip::parse("2001:db8:0:2::b")),
+        (Ip::parse("2001:db8:0:2:1::1"), Ip::parse("2001:db8:0:2:2::1")),
+        (Ip::parse("2001:db8::1"), Ip::parse("2001:db8:0:1::1")),
+        (srv4(), srv4b()),
+        (Ip::V4([10, 0, 0, 1]), Ip::V4([10, 0, 1, 1])),
+        (Ip::V4([10, 0, 0, 1]), Ip::V4([10, 0, 0, 2])),
+    ];
+    let mut flows: Vec<(Flow, Flow)> = Vec::new();
+    for (a, b) in &pairs {
+        let mut fa = flow(!a.is_v4(), 40000, 80);
+        fa.sip = *a;
+        let mut fb = fa.clone();
+        fb.sip = *b;
+        flows.push((fa, fb));
+    }
+    let all: Vec<Flow> = flows.iter().flat_map(|p| [p.0.clone(), p.1.clone()]).collect();
+    let ck = learn_cookies(cfg, &all).unwrap_or_default();
+    let mut d = match crate::driver::Driver::spawn(cfg) {
+        Ok(d) => d,
+        Err(e) => {
+            rep.sink.machinery_errors.push(e);
+            return;
+        }
+    };
+    let conv_cmds = |f: &Flow, segs: &[Vec<u8>]| -> Vec<Cmd> {
+        let c = ck.get(&key_of(f)).copied().unwrap_or(0).wrapping_add(1);
+        let mut off = 0u32;
+        let mut v = Vec::new();
+        for sg in segs {
+            v.push(Cmd::Frame(f.tcp(1000u32.wrapping_add(off), c, F_PSH | F_ACK, sg)));
+            off = off.wrapping_add(sg.len() as u32);
+        }
+        v
+    };
+    let mut n = 0u64;
+    for (fa, fb) in &flows {
+        if !ck.contains_key(&key_of(fa)) || !ck.contains_key(&key_of(fb)) {
+            continue;
+        }
+        for (y, (yname, ysegs)) in convs.iter().enumerate() {
+            // B alone
+            let mut alone = vec![Cmd::Reset];
+            alone.extend(conv_cmds(fb, ysegs));
+            let want: Vec<String> = d.exec(&alone).unwrap_or_default().iter().skip(1).map(|o| canon(o.reply.as_deref())).collect();
+            for x in [(y + 1) % convs.len(), (y + 5) % convs.len()] {
+                let (xname, xsegs) = &convs[x];
+                let mut cmds = vec![Cmd::Reset];
+                cmds.extend(conv_cmds(fa, &xsegs[..1]));
+                cmds.extend(conv_cmds(fb, ysegs));
+                let outs = d.exec(&cmds).unwrap_or_default();
+                n += cmds.len() as u64 - 1;
+                for k in 0..ysegs.len() {
+                    let got = canon(outs.get(2 + k).and_then(|o| o.reply.as_deref()));
+                    if Some(&got) != want.get(k) {
+                        rep.sink.violation(crate::engine::Violation {
+                            prop: prop.into(),
+                            key: format!("sibling-connection:{}", yname),
+                            what: format!("conversation '{}' to {} (segment {}): after the same client endpoint sent the first segment of '{}' to {} the reply is {} instead of {} (idle process)", yname, fb.sip, k + 1, xname, fa.sip, &got[..got.len().min(80)], want.get(k).map(|w| &w[..w.len().min(80)]).unwrap_or("-")),
+                            cfg: cfg.clone(),
+                            cmds: cmds[..=2 + k].to_vec(),
+                            idx: n,
+                            stage: stage.to_string(),
+                        });
+                        break;
+                    }
+                }
+            }
+        }
+    }
+    rep.sink.count("frames", n);
+    rep.stage(stage, &format!("7 pairs of local addresses (second handled address, same /64 with other interface identifiers, other /64, same and other /24) x {} conversations on B x 2 first segments on A, one client endpoint: B answered as by an idle process", convs.len()), n, t0);
+}
+
 /// Conversations on a flow whose SYN cookie is an edge value (0xffffffff / 0 / 0xfffffffe / 1, by
 /// choice of key; confirmed against the real SYN-ACK): the client's acknowledgement numbers wrap
 /// through 0 as it acknowledges the replies.  Every reply must equal the one the same conversation
@@ -897,6 +980,7 @@ pub fn run_c13(rep: &mut Report, thorough: bool) {
             busy_stage(rep, &env.cfg, "C13", &format!("http-busy-responder-{}", tag), &convs, 70_000);
             if env.cfg.self_ips.is_empty() {
                 edge_conv_stage(rep, "C13", "http-edge-cookie-conversations", &convs);
+                sibling_conv_stage(rep, &env.cfg, "C13", "http-sibling-connections", &busy_convs());
             }
         }
         // keep-alive: a second and third complete request on a connection whose earlier requests
@@ -1431,6 +1515,7 @@ pub fn run_c15(rep: &mut Report, thorough: bool) {
             busy_stage(rep, &env.cfg, "C15", &format!("stun-busy-responder-{}", tag), &convs, 70_000);
             if env.cfg.self_ips.is_empty() {
                 edge_conv_stage(rep, "C15", "stun-edge-cookie-conversations", &convs);
+                sibling_conv_stage(rep, &env.cfg, "C15", "stun-sibling-connections", &busy_convs());
             }
         }
             envelope_stage(rep, &env, &format!("stun-envelope-{}", tag), &stun_magic(&[], &ID12), true, true);
@@ -1616,6 +1701,7 @@ pub fn run_c16(rep: &mut Report, thorough: bool) {
             busy_stage(rep, &env.cfg, "C16", &format!("rpc-busy-responder-{}", tag), &convs, 70_000);
             if env.cfg.self_ips.is_empty() {
                 edge_conv_stage(rep, "C16", "rpc-edge-cookie-conversations", &convs);
+                sibling_conv_stage(rep, &env.cfg, "C16", "rpc-sibling-connections", &busy_convs());
             }
         }
         window_stage(rep, &env, &format!("rpc-window-getport-{}", tag), &apprpc::with_record_mark(&apprpc::build_call(0x61626364, 2, 100000, 2, 3, &[], &[])), 256);
@@ -1885,6 +1971,7 @@ pub fn run_c17(rep: &mut Report, thorough: bool) {
             busy_stage(rep, &env.cfg, "C17", &format!("smb-busy-responder-{}", tag), &convs, 70_000);
             if env.cfg.self_ips.is_empty() {
                 edge_conv_stage(rep, "C17", "smb-edge-cookie-conversations", &convs);
+                sibling_conv_stage(rep, &env.cfg, "C17", "smb-sibling-connections", &busy_convs());
             }
         }
             window_stage(rep, &env, &format!("smb2-window-{}", tag), &pls[1], 512);
@@ -2178,6 +2265,7 @@ pub fn run_c18(rep: &mut Report, thorough: bool) {
             busy_stage(rep, &env.cfg, "C18", &format!("ssh-ghost-busy-responder-{}", tag), &convs, 70_000);
             if env.cfg.self_ips.is_empty() {
                 edge_conv_stage(rep, "C18", "ssh-ghost-edge-cookie-conversations", &convs);
+                sibling_conv_stage(rep, &env.cfg, "C18", "ssh-ghost-sibling-connections", &busy_convs());
             }
         }
             window_stage(rep, &env, &format!("ghost-window-{}", tag), &ghost_request(), 256);
